@@ -67,7 +67,8 @@ def normRatio (price L : Dec) : Dec :=
   let priceDivLiqRatio := if priceDivLiqRatio.m = 0 then Dec.smallest else priceDivLiqRatio
   Dec.quo Dec.one priceDivLiqRatio
 
-/-- the block liquidator's range scan reaches an index entry with key `k` -/
+/-- the block liquidator's range scan reaches an index entry with key `k` (the re-check `blockSkips` then
+    decides whether the CDP is seized) -/
 def blockSelects (k : Int) (price L : Dec) : Bool := decide (k < sortKey (normRatio price L))
 
 /-! ## Part B — state machine -/
@@ -383,16 +384,17 @@ def withdraw (E : Env) (now : Int) (s : St) (owner depositor : Acct) (ty : Nat) 
   | none => .err
   | some s3 => .ok { s3 with dep := upd2 s3.dep id depositor (s3.dep id depositor - c) }
 
-/-- `AddPrincipal` (MsgDrawDebt).  NB: no `ValidateCollateral`, hence no market-status gate. -/
+/-- `AddPrincipal` (MsgDrawDebt); since cb3596bb2 it starts with `ValidateCollateral(cdp.Collateral, cdp.Type)`
+    like the other user operations (the CDP's collateral denom is its type's denom). -/
 def draw (E : Env) (now : Int) (s : St) (owner : Acct) (ty : Nat) (p : Int) (pd : Denom) : Res St :=
   if p ≤ 0 then .err else
   match findCdp s owner ty with
   | none => .err
   | some (id, c0) =>
-  if pd ≠ USDX then .err else
-  match E.P.colls[ty]? with
+  match validateCollateral E s c0.ty (denomOf E c0.ty) with
   | none => .err
   | some cp =>
+  if pd ≠ USDX then .err else
   if s.tprin ty + p > cp.debtLimit then .err else
   if s.tprin ty + p > E.P.globalLimit then .err else
   match syncInterest E now s id c0 with
@@ -490,19 +492,25 @@ def seizeDeps (s : St) (id : Nat) (cd : Denom) (deps : List (Acct × Int)) : Opt
 @[irreducible] def debtCovered (amt total debt : Int) : Int :=
   Dec.roundInt (Dec.mul (Dec.quo (Dec.ofInt amt) (Dec.ofInt total)) (Dec.ofInt debt))
 
+/-- `AuctionCollateral`: the share actually handed to a deposit (since bfd342e03): the rounded share, but never
+    more than what is left, and the last deposit takes the remainder -/
+def cappedShare (share remaining : Int) (isLast : Bool) : Int :=
+  if isLast = true ∨ share > remaining then remaining else share
+
 /-- `AuctionCollateral` + `CreateAuctionsFromDeposit` (net bank effect per deposit):
-    the lot and the covered debt go liquidator → auction module. -/
-def auctionDeps (s : St) (cd : Denom) (total debt : Int) : List (Acct × Int) → Res St
-  | [] => .ok s
-  | (_, amt) :: rest =>
+    the lot and the covered debt go liquidator → auction module; `remaining` = `remainingDebt`. -/
+def auctionDeps (s : St) (cd : Denom) (total debt : Int) : Int → List (Acct × Int) → Res St
+  | _, [] => .ok s
+  | remaining, (_, amt) :: rest =>
     if total = 0 then .panic else           -- `Dec.Quo` by zero total collateral
     if amt = 0 then .panic else             -- `debt.Mul(auctionSize).Quo(collateral.Amount)`: Int division by zero
     match sendB s MLIQ MAUC cd amt with
     | none => .err
     | some s1 =>
-      match sendB s1 MLIQ MAUC DEBT (debtCovered amt total debt) with
-      | none => .err                        -- "insufficient funds": the shares add up to more than the debt
-      | some s2 => auctionDeps s2 cd total debt rest
+      match sendB s1 MLIQ MAUC DEBT (cappedShare (debtCovered amt total debt) remaining rest.isEmpty) with
+      | none => .err
+      | some s2 =>
+        auctionDeps s2 cd total debt (remaining - cappedShare (debtCovered amt total debt) remaining rest.isEmpty) rest
 
 /-- `SeizeCollateral(cdp)` with the deposit records `GetDeposits` returns at that point -/
 def seize (E : Env) (s : St) (id : Nat) (c : Cdp) (deps : List (Acct × Int)) : Res St :=
@@ -514,7 +522,7 @@ def seize (E : Env) (s : St) (id : Nat) (c : Cdp) (deps : List (Acct × Int)) : 
   match seizeDeps s1 id (denomOf E c.ty) deps with
   | none => .err
   | some s2 =>
-  match auctionDeps s2 (denomOf E c.ty) (sumDeps deps) debt deps with
+  match auctionDeps s2 (denomOf E c.ty) (sumDeps deps) debt debt deps with
   | .err => .err
   | .panic => .panic
   | .ok s3 =>
@@ -639,11 +647,19 @@ def syncRisky (E : Env) (s : St) (ty : Nat) (cp : CollParam) : Res St :=
   | none => .panic
   | some prev => syncLoop E s ty cp ((s.ifac ty).getD Dec.zero) prev (riskyIds s ty cp)
 
-def seizeLoop (E : Env) (s : St) : List (Nat × Cdp) → Res St
+/-- `LiquidateCdps` (since b28e8ed21): a selected CDP is skipped when its value ratio at the liquidation price,
+    `quo(mul(collateral base units, price), debt base units)`, is `≥ L` (zero debt: never skipped) -/
+def blockSkips (E : Env) (c : Cdp) (price L : Dec) : Bool :=
+  let debt := baseUnits (c.prin + c.fees) E.P.debtCf
+  if debt.m = 0 then false
+  else decide ((Dec.quo (Dec.mul (baseUnits c.coll (cfOf E c.ty)) price) debt).m ≥ L.m)
+
+def seizeLoop (E : Env) (price L : Dec) (s : St) : List (Nat × Cdp) → Res St
   | [] => .ok s
   | (id, c) :: rest =>
+    if blockSkips E c price L = true then seizeLoop E price L s rest else
     match seize E s id c (depositsOf E s id) with
-    | .ok s1 => seizeLoop E s1 rest
+    | .ok s1 => seizeLoop E price L s1 rest
     | .err => .err
     | .panic => .panic
 
@@ -661,7 +677,7 @@ def fetchCdps (s : St) : List Entry → Option (List (Nat × Cdp))
 def liquidateBlock (E : Env) (s : St) (ty : Nat) (cp : CollParam) (price : Dec) : Res St :=
   match fetchCdps s (takeCount cp.checkCount (below s.idx ty (sortKey (normRatio price cp.liqRatio)))) with
   | none => .panic
-  | some cdps => seizeLoop E s cdps
+  | some cdps => seizeLoop E price cp.liqRatio s cdps
 
 /-- body of the `for _, cp := range params.CollateralParams` loop in `BeginBlocker` -/
 def bbType (E : Env) (now : Int) (skip : Bool) (s : St) (ty : Nat) (cp : CollParam) (f : Dec) : Res St :=
